@@ -1,7 +1,7 @@
 #!/bin/sh
 # runs every registered check in the given tier and prints one summary line each
 TIER=${1:-quick}
-shift
+[ $# -gt 0 ] && shift
 LIST=${@:-C01 C02 C03 C04 C05 C06 C07 C08 C09 C10 C11 C12 C13 C14 C15 C16 C17 C18 C19 C20}
 cd "$(dirname "$0")/.." || exit 2
 ./setup.sh >/dev/null 2>&1 || { echo "setup failed"; exit 2; }
